@@ -24,6 +24,7 @@ from concurrent.futures import ProcessPoolExecutor, as_completed
 VERIF_DIR = os.path.dirname(os.path.dirname(os.path.abspath(__file__)))
 REPO_DIR = os.environ.get("VERIF_REPO", "/repo")
 DEFAULT_SEED = 20261002
+MAX_REPORTED = 6  # violating signature classes minimised and reported per invocation (all are counted)
 HIST_CAP = 4_000_000  # exact distinct-history counting stops here (reported as a lower bound)
 
 OK, VIOLATION, DISCARD = "ok", "violation", "discard"
@@ -81,6 +82,11 @@ class Check:
 
     reps_per_class = 3
     minimise_budget = 300
+
+    def self_contained(self, case) -> bool:
+        """True if the case carries its own history of earlier executions (used when a violation found in a worker
+        does not reproduce in the parent because something kept state across runs)."""
+        return False
 
     def sig_class(self, sig) -> str:
         """Coarse class used to group violating runs before minimisation."""
@@ -359,7 +365,29 @@ def run_check(chk: Check, tier: str, seed: int, workers: int, runs=None, wall=No
         by_cls.setdefault(chk.sig_class(v["sig"]), []).append(v)
     known_hits, new_paths, harness_bad = {}, [], False
     seen_min = set()
+    unrepro = []
+
+    def confirm_fresh(vs, skip):
+        """Confirm one run of this class in a FRESH interpreter, where no earlier run can have left anything behind;
+        cases that carry their own cross-execution history (chk.self_contained) are tried first."""
+        cands = sorted([x for x in vs if x is not skip], key=lambda x: (not chk.self_contained(x["case"]), x["size"]))
+        for v2 in cands[:8]:
+            if match_known(known, v2["sig"]) is not None or v2["sig"] in seen_min:
+                continue
+            o2 = dict(sig=v2["sig"], detail=v2.get("detail", ""), log=[])
+            path = write_replay(chk, seed, v2["run"], v2["case"], o2, tag="-asfound")
+            ok, res = fresh_replay(path, v2["sig"])
+            if ok:
+                seen_min.add(v2["sig"])
+                new_paths.append((v2["sig"], path, dict(sig=v2["sig"], detail=v2.get("detail", "") + " [not minimised: the "
+                                  "violation depends on an earlier execution in the same process]"), 0, len(vs)))
+                return True
+        return False
+
     for cls, vs in sorted(by_cls.items()):
+        if len(new_paths) >= MAX_REPORTED:
+            print(f"[{chk.id}] further violating class not minimised (already {MAX_REPORTED} reported): {cls} ({len(vs)} runs)")
+            continue
         reps, seen_raw = [], set()
         for v in vs:  # smallest cases first; up to REPS distinct raw signatures per class
             if v["sig"] not in seen_raw:
@@ -374,9 +402,13 @@ def run_check(chk: Check, tier: str, seed: int, workers: int, runs=None, wall=No
                 continue
             out = chk.run(v["case"])
             if out["verdict"] != VIOLATION or out["sig"] != v["sig"]:
-                print(f"[{chk.id}] HARNESS-ERROR: run {v['run']} did not reproduce in the parent "
-                      f"(got {out['verdict']} {out.get('sig')}, expected {v['sig']})")
-                harness_bad = True
+                # not reproducible outside the worker that found it: either the harness or the code under test keeps
+                # state across runs.  Try the other runs of this class before giving up on it.
+                unrepro.append((v["run"], v["sig"], out["verdict"], out.get("sig")))
+                # Prefer cases that carry their own cross-execution history (chk.self_contained) and confirm each
+                # candidate in a FRESH interpreter, where no earlier run can have left anything behind.
+                if confirm_fresh(vs, v):
+                    break
                 continue
             mcase, mout, spent = minimise(chk, v["case"], out, budget=chk.minimise_budget)
             if mout["sig"] in seen_min:
@@ -389,8 +421,15 @@ def run_check(chk: Check, tier: str, seed: int, workers: int, runs=None, wall=No
             path = write_replay(chk, seed, v["run"], mcase, mout)
             ok, res = fresh_replay(path, mout["sig"])
             if not ok:
-                print(f"[{chk.id}] HARNESS-ERROR: minimised replay {path} did not reproduce in a fresh interpreter: {res}")
-                harness_bad = True
+                # the minimised case does not stand on its own in a fresh interpreter: fall back to the case as found
+                path = write_replay(chk, seed, v["run"], v["case"], out, tag="-unminimised")
+                ok, res = fresh_replay(path, out["sig"])
+                if ok:
+                    mout, spent = out, 0
+            if not ok:
+                unrepro.append((v["run"], v["sig"], "fresh-replay", str(res)[:200]))
+                if confirm_fresh(vs, v):
+                    break
                 continue
             new_paths.append((mout["sig"], path, mout, spent, len(vs)))
 
@@ -403,10 +442,14 @@ def run_check(chk: Check, tier: str, seed: int, workers: int, runs=None, wall=No
     for sig, path, mout, spent, n in new_paths:
         print(f"[{chk.id}] violation signature={sig} runs={n} minimised in {spent} re-executions: {mout.get('detail', '')}")
         print(f"VIOLATION property={chk.id} replay={path}")
-    write_evidence(chk, tier, seed, total, len(new_paths), known_hits)
-    if harness_bad:
-        return 2
+    for u in unrepro[:8]:
+        print(f"[{chk.id}] NOT-REPRODUCIBLE: run {u[0]} reported {u[1]} in its worker but gave {u[2]} {u[3]} on re-execution "
+              f"(state kept across executions by the harness or by the code under test)")
+    write_evidence(chk, tier, seed, total, len(new_paths), known_hits, extra=dict(not_reproducible=len(unrepro)))
     if new_paths:
         return 1
+    if harness_bad or unrepro:
+        print(f"[{chk.id}] HARNESS-ERROR: violations were reported but none could be reproduced from its replay file")
+        return 2
     print(f"[{chk.id}] OK: property held on everything explored")
     return 0
